@@ -275,8 +275,15 @@ func IsEntityEqual(prevJson []byte, thisJson []byte, prevEntity *Entity, thisEnt
 		return false
 	}
 
-	// assuming that the length check is enough to determine that refs and props have the same keys
-	// it is theoretically possible to have the same json length with different keys ... consider matching keys in both objects as well.
+	// the serialized length alone does not tell a deleted from a live version apart, nor does it guarantee
+	// that both versions have the same keys: compare the deleted flag and the number of keys explicitly.
+	// With equally many keys, finding every previous key in this entity (below) means the key sets are equal.
+	if prevEntity.IsDeleted != thisEntity.IsDeleted {
+		return false
+	}
+	if len(prevEntity.References) != len(thisEntity.References) || len(prevEntity.Properties) != len(thisEntity.Properties) {
+		return false
+	}
 	for i, v := range prevEntity.References {
 		thisVal, ok := thisEntity.References[i]
 		if !ok {
